@@ -237,16 +237,178 @@ def usesSums : AggKind → Bool
   | .sum _ | .avg _ | .stddev _ _ => true
   | _ => false
 
+/-! #### REAL sums: algebraic laws of the addition on the values at hand
+
+`F64.add` is executed with Lean's `Float` (IEEE-754 binary64 hardware addition), which is OPAQUE to the kernel: not even
+`F64.add 0 0 = 0` can be proved. What C15 needs from it is therefore stated as explicit laws, restricted to the values
+that actually arise when the addends `rs` of one group are summed in some order — NOT as "the sum does not depend on the
+order" (which is the conclusion). The laws and the proofs below are generic in the addition, so that they can be
+instantiated (and are, in `Props/C15.lean`) with a transparent exact addition. -/
+
+/-- `l` uses each addend of `rs` at most as often as it occurs in `rs` -/
+def SubMulti (l rs : List Nat) : Prop := ∃ rest, (l ++ rest).Perm rs
+
+/-- the sum of `l` added up from the left, starting at `z0` (for `F64.add`, `F64.zero` this is `Spec.Agg.realSum`) -/
+def fsum (add : Nat → Nat → Nat) (z0 : Nat) (l : List Nat) : Nat := l.foldl add z0
+
+/-- **the assumption about the addition, on the values at hand** (the addends `rs` of one group, and the partial sums
+`fsum a` of lists `a` of some of them):
+* `zeroAdd`: `0.0 + y = y` for every addend (IEEE: false only for `y = -0.0`, and for a NaN with another payload);
+* `comm`: `x + y = y + x` for two addends (IEEE addition is commutative on non-NaN operands);
+* `assoc`: `(A + B) + C = A + (B + C)` for the partial sums `A`, `B`, `C` of three lists (`B`, `C` non-empty) that together
+  use each addend at most as often as it occurs — this is what "the sums are exactly representable" buys: IEEE addition returns the exact
+  sum when it is representable, and exact addition is associative. It fails as soon as some partial sum is rounded. -/
+structure AddLaws (add : Nat → Nat → Nat) (z0 : Nat) (rs : List Nat) : Prop where
+  zeroAdd : ∀ y ∈ rs, add z0 y = y
+  comm : ∀ x ∈ rs, ∀ y ∈ rs, add x y = add y x
+  assoc : ∀ a b c, b ≠ [] → c ≠ [] → SubMulti (a ++ b ++ c) rs →
+    add (add (fsum add z0 a) (fsum add z0 b)) (fsum add z0 c) =
+      add (fsum add z0 a) (add (fsum add z0 b) (fsum add z0 c))
+
+theorem SubMulti.perm {l l' rs : List Nat} (h : SubMulti l rs) (hp : l.Perm l') : SubMulti l' rs := by
+  obtain ⟨rest, hr⟩ := h
+  exact ⟨rest, (hp.symm.append_right rest).trans hr⟩
+
+theorem SubMulti.left {a b rs : List Nat} (h : SubMulti (a ++ b) rs) : SubMulti a rs := by
+  obtain ⟨rest, hr⟩ := h
+  exact ⟨b ++ rest, by rw [← List.append_assoc]; exact hr⟩
+
+theorem SubMulti.right {a b rs : List Nat} (h : SubMulti (a ++ b) rs) : SubMulti b rs :=
+  (h.perm List.perm_append_comm).left
+
+theorem SubMulti.mem {l rs : List Nat} (h : SubMulti l rs) {x : Nat} (hx : x ∈ l) : x ∈ rs := by
+  obtain ⟨rest, hr⟩ := h
+  exact hr.mem_iff.mp (List.mem_append_left _ hx)
+
+theorem SubMulti.refl (rs : List Nat) : SubMulti rs rs := ⟨[], by simp⟩
+
+theorem SubMulti.of_perm {l rs : List Nat} (h : l.Perm rs) : SubMulti l rs := ⟨[], by simpa using h⟩
+
+theorem AddLaws.perm {add : Nat → Nat → Nat} {z0 : Nat} {rs rs' : List Nat} (h : AddLaws add z0 rs) (hp : rs.Perm rs') :
+    AddLaws add z0 rs' :=
+  ⟨fun y hy => h.zeroAdd y (hp.mem_iff.mpr hy),
+   fun x hx y hy => h.comm x (hp.mem_iff.mpr hx) y (hp.mem_iff.mpr hy),
+   fun a b c hb hc hs => h.assoc a b c hb hc (by obtain ⟨rest, hr⟩ := hs; exact ⟨rest, hr.trans hp.symm⟩)⟩
+
+theorem fsum_snoc (add : Nat → Nat → Nat) (z0 : Nat) (l : List Nat) (x : Nat) :
+    fsum add z0 (l ++ [x]) = add (fsum add z0 l) x := by
+  simp [fsum, List.foldl_append]
+
+theorem fsum_single {add : Nat → Nat → Nat} {z0 : Nat} {rs : List Nat} (h : AddLaws add z0 rs) {x : Nat} (hx : x ∈ rs) :
+    fsum add z0 [x] = x := by
+  simp only [fsum, List.foldl_cons, List.foldl_nil]; exact h.zeroAdd x hx
+
+/-- two addends after a partial sum at hand may be swapped -/
+theorem AddLaws.right_comm {add : Nat → Nat → Nat} {z0 : Nat} {rs : List Nat} (h : AddLaws add z0 rs)
+    (pre : List Nat) (x y : Nat) (hs : SubMulti (pre ++ [x] ++ [y]) rs) :
+    add (add (fsum add z0 pre) x) y = add (add (fsum add z0 pre) y) x := by
+  have hx : x ∈ rs := hs.mem (by simp)
+  have hy : y ∈ rs := hs.mem (by simp)
+  have hs' : SubMulti (pre ++ [y] ++ [x]) rs := hs.perm (by
+    simp only [List.append_assoc]
+    exact List.Perm.append_left pre (List.Perm.swap y x []))
+  have e1 := h.assoc pre [x] [y] (by simp) (by simp) hs
+  have e2 := h.assoc pre [y] [x] (by simp) (by simp) hs'
+  rw [fsum_single h hx, fsum_single h hy] at e1 e2
+  rw [e1, e2, h.comm x hx y hy]
+
+/-- **the sum of the addends is the same in every order** — from the laws, by the swaps that generate a permutation; the
+accumulator in front of the two swapped addends is always a partial sum at hand -/
+theorem foldl_perm_of_laws {add : Nat → Nat → Nat} {z0 : Nat} {rs : List Nat} (h : AddLaws add z0 rs) {l1 l2 : List Nat}
+    (hp : l1.Perm l2) : ∀ pre, SubMulti (pre ++ l1) rs →
+      l1.foldl add (fsum add z0 pre) = l2.foldl add (fsum add z0 pre) := by
+  induction hp with
+  | nil => intro _ _; rfl
+  | cons x _ ih =>
+    intro pre hs
+    simp only [List.foldl_cons]
+    rw [← fsum_snoc add z0 pre x]
+    exact ih (pre ++ [x]) (by simpa [List.append_assoc] using hs)
+  | swap x y l =>
+    intro pre hs
+    simp only [List.foldl_cons]
+    have hs' : SubMulti (pre ++ [y] ++ [x]) rs := by
+      have : pre ++ y :: x :: l = (pre ++ [y] ++ [x]) ++ l := by simp
+      rw [this] at hs
+      exact hs.left
+    rw [h.right_comm pre y x hs']
+  | trans hp1 _ ih1 ih2 =>
+    intro pre hs
+    rw [ih1 pre hs]
+    exact ih2 pre (hs.perm (List.Perm.append_left pre hp1))
+
+theorem fsum_perm_of_laws {add : Nat → Nat → Nat} {z0 : Nat} {rs l : List Nat} (h : AddLaws add z0 rs) (hp : l.Perm rs) :
+    fsum add z0 l = fsum add z0 rs :=
+  foldl_perm_of_laws h hp [] (SubMulti.of_perm hp)
+
+/-- adding a non-empty run of addends one by one to a partial sum, or adding their own sum to it, is the same -/
+theorem foldl_eq_add_fsum {add : Nat → Nat → Nat} {z0 : Nat} {rs : List Nat} (h : AddLaws add z0 rs) (m : List Nat) :
+    m ≠ [] → ∀ pre, SubMulti (pre ++ m) rs →
+      m.foldl add (fsum add z0 pre) = add (fsum add z0 pre) (fsum add z0 m) := by
+  induction m with
+  | nil => intro hne; exact absurd rfl hne
+  | cons x m' ih =>
+    intro _ pre hs
+    have hx : x ∈ rs := hs.mem (by simp)
+    cases m' with
+    | nil => simp only [List.foldl_cons, List.foldl_nil, fsum_single h hx]
+    | cons y m'' =>
+      have hne : y :: m'' ≠ [] := by simp
+      have hs1 : SubMulti ((pre ++ [x]) ++ (y :: m'')) rs := by simpa [List.append_assoc] using hs
+      have hs2 : SubMulti ([x] ++ (y :: m'')) rs := by
+        have : pre ++ x :: y :: m'' = pre ++ ([x] ++ (y :: m'')) := by simp
+        rw [this] at hs
+        exact hs.right
+      have e1 := ih hne (pre ++ [x]) hs1
+      have e2 := ih hne [x] hs2
+      have e3 := h.assoc pre [x] (y :: m'') (by simp) (by simp) (by simpa [List.append_assoc] using hs)
+      have hfx : fsum add z0 (x :: y :: m'') = (y :: m'').foldl add (fsum add z0 [x]) := rfl
+      rw [List.foldl_cons, ← fsum_snoc add z0 pre x, e1, fsum_snoc, hfx, e2]
+      rw [fsum_single h hx] at e3 ⊢
+      exact e3
+
+theorem fsum_append_of_laws {add : Nat → Nat → Nat} {z0 : Nat} {r1 r2 : List Nat} (h : AddLaws add z0 (r1 ++ r2))
+    (hne : r2 ≠ []) : fsum add z0 (r1 ++ r2) = add (fsum add z0 r1) (fsum add z0 r2) := by
+  have : fsum add z0 (r1 ++ r2) = r2.foldl add (fsum add z0 r1) := by simp [fsum, List.foldl_append]
+  rw [this]
+  exact foldl_eq_add_fsum h r2 hne r1 (SubMulti.refl _)
+
+/-- the laws for the model's REAL addition on the addends `rs` (an assumption about IEEE addition: see `AddLaws`) -/
+def RealAddLaws (rs : List Nat) : Prop := AddLaws F64.add F64.zero rs
+
+theorem realSum_eq_fsum (l : List Nat) : realSum l = fsum F64.add F64.zero l := rfl
+
+/-- REAL sums do not depend on the order — derived from the laws -/
+theorem realSum_perm_of_laws {rs l : List Nat} (h : RealAddLaws rs) (hp : l.Perm rs) : realSum l = realSum rs :=
+  fsum_perm_of_laws h hp
+
+/-- the REAL sum of a concatenation is the sum of the parts' sums — derived from the laws -/
+theorem realSum_append_of_laws {r1 r2 : List Nat} (h : RealAddLaws (r1 ++ r2)) (hne : r2 ≠ []) :
+    realSum (r1 ++ r2) = F64.add (realSum r1) (realSum r2) :=
+  fsum_append_of_laws h hne
+
 /-- what the property grants about the sums of the non-NULL values `xs` of a group: INT (and INTERVAL) partial sums
-stay in range in every order; REAL sums are exact, i.e. do not depend on the order, and `0.0 + y = y` -/
+stay in range in every order; for REAL addends the addition obeys `RealAddLaws` on them (and on their squares, for
+STDDEV/VARIANCE) — an assumption about IEEE addition on these values, from which order-independence is PROVED -/
 structure SumsOrderFree (xs : List Value) : Prop where
   intOk : ∀ is, ints xs = some is → ∀ l, l.Perm is → partialSumsOk inI64 0 l = true
   intSqOk : ∀ is, ints xs = some is → ∀ l, l.Perm (is.map (fun x => x * x)) → partialSumsOk inI64 0 l = true
   ivOk : ∀ ns, intervals xs = some ns → ∀ l, l.Perm ns → partialSumsOk inIv 0 l = true
-  realSum : ∀ rs, reals xs = some rs → ∀ l, l.Perm rs → realSum l = realSum rs
-  realSqSum : ∀ rs, reals xs = some rs → ∀ l, l.Perm (rs.map (fun x => F64.mul x x)) →
-    Spec.Agg.realSum l = Spec.Agg.realSum (rs.map (fun x => F64.mul x x))
-  realZero : ∀ rs, reals xs = some rs → ∀ y ∈ rs, F64.add F64.zero y = y ∧ F64.add F64.zero (F64.mul y y) = F64.mul y y
+  realLaws : ∀ rs, reals xs = some rs → RealAddLaws rs
+  realSqLaws : ∀ rs, reals xs = some rs → RealAddLaws (rs.map (fun x => F64.mul x x))
+
+theorem SumsOrderFree.realSum {xs : List Value} (hs : SumsOrderFree xs) (rs : List Nat) (h : reals xs = some rs)
+    (l : List Nat) (hp : l.Perm rs) : realSum l = realSum rs :=
+  realSum_perm_of_laws (hs.realLaws rs h) hp
+
+theorem SumsOrderFree.realSqSum {xs : List Value} (hs : SumsOrderFree xs) (rs : List Nat) (h : reals xs = some rs)
+    (l : List Nat) (hp : l.Perm (rs.map (fun x => F64.mul x x))) :
+    Spec.Agg.realSum l = Spec.Agg.realSum (rs.map (fun x => F64.mul x x)) :=
+  realSum_perm_of_laws (hs.realSqLaws rs h) hp
+
+theorem SumsOrderFree.realZero {xs : List Value} (hs : SumsOrderFree xs) (rs : List Nat) (h : reals xs = some rs)
+    (y : Nat) (hy : y ∈ rs) : F64.add F64.zero y = y ∧ F64.add F64.zero (F64.mul y y) = F64.mul y y :=
+  ⟨(hs.realLaws rs h).zeroAdd y hy, (hs.realSqLaws rs h).zeroAdd _ (List.mem_map.mpr ⟨y, hy, rfl⟩)⟩
 
 theorem zeroNeutral_of_all {l : List Nat} (h : ∀ y ∈ l, F64.add F64.zero y = y) : zeroNeutral l = true := by
   cases l with
